@@ -188,9 +188,20 @@ pub fn mutate(s: &mut Src, bytes: &mut Vec<u8>, fields: &[Field], other: Option<
             // field edit with a value dictionary
             let numeric: Vec<&Field> = fields.iter().filter(|f| f.kind != FK::Bytes).collect();
             let f = *s.pick(&numeric);
-            let cur = if f.kind == FK::Vint { 0 } else { read_le(bytes, f.off, f.len) };
+            let cur = if f.kind == FK::Vint {
+                if f.len >= 9 {
+                    read_le(bytes, f.off + 1, 8)
+                } else {
+                    read_le(bytes, f.off, f.len) >> f.len
+                }
+            } else {
+                read_le(bytes, f.off, f.len)
+            };
             let max = if f.len >= 8 { u64::MAX } else { (1u64 << (8 * f.len)) - 1 };
-            let v: u64 = match s.below(12) {
+            let v: u64 = match s.below(if f.len >= 8 { 14 } else { 12 }) {
+                // 64-bit fields (the nonce): the same value shifted by a field modulus
+                12 => cur.wrapping_add(0xffff_ffff_0000_0001),
+                13 => cur.wrapping_add(4611624995532046337),
                 0 => 0,
                 1 => 1,
                 2 => max,
@@ -205,10 +216,13 @@ pub fn mutate(s: &mut Src, bytes: &mut Vec<u8>, fields: &[Field], other: Option<
                 _ => s.u64() & max,
             };
             if f.kind == FK::Vint {
-                let v = match s.below(4) {
+                let v = match s.below(7) {
                     0 => v,
                     1 => 1 << 62,
                     2 => u32::MAX as u64,
+                    // the same value modulo 2^32 / 2^16 / 2^8 (narrowing conversions downstream)
+                    3 => cur.wrapping_add(1 << 32),
+                    4 => cur.wrapping_add(s.pick_copy(&[1u64 << 8, 1 << 16, 1 << 33, 1 << 40])),
                     _ => s.below(1 << 16),
                 };
                 let enc = vint_encode(v, s.chance(1, 4));
@@ -248,26 +262,39 @@ pub fn mutate(s: &mut Src, bytes: &mut Vec<u8>, fields: &[Field], other: Option<
             format!("fri_extra_row: {} bytes appended to a FRI layer's values, length prefix fixed", extra.len())
         },
         7 => {
-            // add a node to a batch proof node vector and fix counts (vector count is a vint just before)
-            let cands: Vec<usize> = fields.iter().enumerate().filter(|(_, f)| f.label == "batch_proof.num_nodes").map(|(i, _)| i).collect();
+            // append one more digest to a node vector of a batch Merkle proof and fix the node count and the
+            // enclosing byte-length prefix (consistent multi-site edit: the proof stays well-formed)
+            let cands: Vec<usize> = fields
+                .iter()
+                .enumerate()
+                .filter(|(i, f)| f.label == "batch_proof.num_nodes" && f.len == 1 && (1..120).contains(&(bytes[f.off] >> 1)) && fields.get(i + 1).map(|n| n.label == "batch_proof.nodes").unwrap_or(false))
+                .map(|(i, _)| i)
+                .collect();
             if cands.is_empty() {
                 let i = s.below(bytes.len() as u64) as usize;
                 bytes[i] ^= 1;
                 return format!("bit_flip at {i} (bit 0)");
             }
-            format!("batch_proof_extra_node (unsupported layout shift): {}", {
-                let fi = *s.pick(&cands);
-                let f = &fields[fi];
-                // only when the count fits a 1-byte vint and stays so
-                let cnt = read_le(bytes, f.off, 1) >> 1;
-                if f.len == 1 && cnt < 62 {
-                    bytes[f.off] = (((cnt + 1) << 1) | 1) as u8;
-                    "count incremented without adding bytes"
-                } else {
-                    bytes[f.off] ^= 2;
-                    "count bit flipped"
-                }
-            })
+            let fi = *s.pick(&cands);
+            let (cf, nf) = (&fields[fi], &fields[fi + 1]);
+            let cnt = (bytes[cf.off] >> 1) as usize;
+            let dl = nf.len / cnt;
+            let extra: Vec<u8> = if s.bool() { bytes[nf.off..nf.off + dl].to_vec() } else { s.bytes(dl) };
+            // enclosing length prefix: the closest preceding "...paths_len" field
+            let lf = fields[..fi].iter().rev().find(|f| f.label.ends_with("paths_len")).unwrap();
+            let at = nf.off + nf.len;
+            bytes.splice(at..at, extra);
+            bytes[cf.off] = (((cnt + 1) << 1) | 1) as u8;
+            if lf.kind == FK::Vint {
+                let mut v = [0u8; 8];
+                v[..lf.len.min(8)].copy_from_slice(&bytes[lf.off..lf.off + lf.len.min(8)]);
+                let val = u64::from_le_bytes(v) >> lf.len;
+                bytes.splice(lf.off..lf.off + lf.len, vint_encode(val + dl as u64, false));
+            } else {
+                let cur = read_le(bytes, lf.off, lf.len);
+                write_le(bytes, lf.off, lf.len, cur + dl as u64);
+            }
+            format!("batch_proof_extra_node: one digest appended to a node vector of {cnt} ({}), count and {} fixed", nf.label, lf.label)
         },
         8 => {
             // re-encode a vint non-minimally (semantically identical)
